@@ -25,7 +25,9 @@ Record pobs := { o_same : bool; o_reason : reason; o_states : list (option state
    k_stale: ids its search index lists as Running although the plan rows are terminal, until Recovery() *)
 Record rcase := { k_t0 : Z; k_t1 : Z; k_maxage : Z; k_recovery : bool;
                  k_store : list plan; k_obs : list pobs; k_vault : nat; k_stale : list N;
-                 k_crash : nat; k_t2 : Z; k_t3 : Z }.
+                 k_crash : nat; k_t2 : Z; k_t3 : Z; k_ctx : nat; k_err : bool }.
+(* k_ctx: the context handed to coercion.New: 0 = live, 1 = cancelled before the call, 2 = its deadline had
+          passed.  k_err: coercion.New returned an error (and no Workstream). *)
 (* k_crash = j > 0: "crash during the close".  A first incarnation ran coercion.New on k_store during
    [k_t0, k_t1] through a vault that let only the first j Update* calls through (the process died after
    the j-th write of start-up recovery); a second incarnation then ran coercion.New on what that left,
@@ -122,7 +124,19 @@ Fixpoint first_code (c : rcase) (resumed : list N) (i : nat) (s0 s s' : list pla
   | _, _, _, _ => (6, i)
   end.
 
+(* New returned an error: nothing may have been resumed, and the store must be what some prefix of the
+   closes' writes left (execute_new ... = Refused (crash_during_close j ...)).
+   11 = an error although the context was live and no store operation fails
+   12 = an error, but the store is not a prefix of the close / something ran *)
+Definition refused_code (c : rcase) : nat * nat :=
+  if Nat.eqb (k_ctx c) 0 then (11, 0) else
+  let ws := close_writes (k_t0 c) (k_t0 c) (k_maxage c) (k_store c) in
+  if existsb (fun j => match first_code c [] 0 (k_store c) (k_store c) (persist (k_store c) (firstn j ws)) (k_obs c) with
+                       | (0, _) => true | _ => false end) (seq 0 (S (length ws)))
+  then (0, 0) else (12, 0).
+
 Definition model_code (c : rcase) : nat * nat :=
+  if k_err c then refused_code c else
   let impl := negb (Nat.eqb (k_vault c) 0) in
   (* the store the observed incarnation started from *)
   let s1 := match k_crash c with
@@ -158,7 +172,8 @@ Definition head_is_0 (l : list nat) : bool := match l with 0 :: _ => true | _ =>
 (*   - crash during the close (k_crash > 0): "nothing left Running" is not demanded of a close that was cut
        short; the plan must still be Failed / ExceedRecovery, never executed, and not written again *)
 Definition mon_plan (c : rcase) (p : plan) (o : pobs) : bool :=
-  if negb (k_recovery c) || negb (is_runningb p) then
+  if k_err c && is_runningb p then Nat.eqb (o_calls o) 0      (* New refused: nothing is executed *)
+  else if negb (k_recovery c) || negb (is_runningb p) then
     unchanged p o && Nat.eqb (o_calls o) 0 && Nat.eqb (o_writes o) 0
   else if is_staleb (k_t0 c) (k_maxage c) p then
     o_same o && reason_eqb (o_reason o) FRExceedRecovery && head_failed (o_states o)
@@ -191,13 +206,14 @@ Definition rcase_ok (c : rcase) : bool :=
 (* ---- what the harness hands over: one store and the runs made on (fresh copies of) it - one run for an
    ordinary store, one per crash point j for the family "crash during the close" - so that the store is
    written out once ---- *)
-Record run := { r_t0 : Z; r_t1 : Z; r_obs : list pobs; r_vault : nat; r_crash : nat; r_t2 : Z; r_t3 : Z }.
+Record run := { r_t0 : Z; r_t1 : Z; r_obs : list pobs; r_vault : nat; r_crash : nat; r_t2 : Z; r_t3 : Z;
+                r_ctx : nat; r_err : bool }.
 Record case := { w_maxage : Z; w_recovery : bool; w_store : list plan; w_stale : list N; w_runs : list run }.
 
 Definition rcase_of (c : case) (r : run) : rcase :=
   {| k_t0 := r_t0 r; k_t1 := r_t1 r; k_maxage := w_maxage c; k_recovery := w_recovery c;
      k_store := w_store c; k_obs := r_obs r; k_vault := r_vault r; k_stale := w_stale c;
-     k_crash := r_crash r; k_t2 := r_t2 r; k_t3 := r_t3 r |}.
+     k_crash := r_crash r; k_t2 := r_t2 r; k_t3 := r_t3 r; k_ctx := r_ctx r; k_err := r_err r |}.
 
 (* three numbers per run, in the order of the runs *)
 Definition check_case (c : case) : list nat := flat_map (fun r => check_rcase (rcase_of c r)) (w_runs c).
